@@ -315,6 +315,27 @@ CLAIMED["C18"] = dict(
     technique="Lean 4 proofs on pack/extract (all N, M) + extracted dispatch tables (decide) + group-action save/load theorem on the C04 model + round-trip matrix",
     ref="DESIGN.md §5 C18")
 
+CLAIMED["C12"] = dict(
+    text="Lean 4 proof that the orientational prefactor computed by the code IS the exact orientational average: for EVERY averaging "
+         "functional over 3x3 matrices that is linear, normalised, blind outside the orthogonal matrices and invariant under "
+         "multiplication from both sides by three explicit rational rotations (quarter turns about z and x, the rotation with cos 3/5, "
+         "sin 4/5) - properties the average over all molecular orientations has for every rotation - the averaged tensor "
+         "<R_ia R_jb R_kc R_ld> equals sum_ab M4_ab I^a_ijkl I^b_abcd (T8_eq), where the classification of the invariant rank-4 "
+         "tensors is PROVED (cubic_form over the 81 components, weyl4), the nine coefficients follow from R^T R = 1 (T8_contractions), "
+         "and hence sign*(F4eM4.F4n)*rho0*evolfac with the M4 and the index pairings re-extracted from labsetup.py / diagramatics.py is "
+         "sign*rho0*evolfac times the average of (e3.Rd3)(e2.Rd2)(e1.Rd1)(e0.Rd0) for all polarisation and dipole four-tuples "
+         "(orientational_average, pref_is_orientational_average); M4 is the inverse Gram matrix of the three isotropic tensors "
+         "(m4_is_gram_inverse, decide); the prefactor is invariant under a common rotation/reflection of all dipoles or of all "
+         "polarisations and scales with s^4 (pref_rotate_dipoles, pref_rotate_fields, pref_scale_dipoles); the sum over pathway types "
+         "is the sum over the signals (total_eq_sum_of_signals, C19 tables). Tied to the code by comparing pref of every generated "
+         "pathway with the rational model and with an independent degree-4-exact quadrature over SO(3). Partial (measured on the "
+         "implementation, not proved): rotation, scaling, total = R + NR and the additivity of uncoupled molecules for the SPECTRA "
+         "(pathway generation and line shapes are not modelled).",
+    note="Lean kernel + standard axioms; existence of the Haar average of SO(3) with the listed properties is classical and not "
+         "constructed in Lean; pathway generation / line shapes observed only.",
+    technique="Lean 4 proof of the rank-4 isotropic average (invariant-tensor classification + contraction equations) + extracted M4/pairings + pathway-level correspondence and SO(3) quadrature oracle",
+    ref="DESIGN.md §5 C12")
+
 NOT_APPLICABLE = {}
 
 
